@@ -571,7 +571,7 @@ func run(c *mc.Ctx) {
 			break
 		}
 		rs := &ss[i]
-		cfg := sm.Cfg{Depth: depth, Events: []string{"msg:a", "msg:zz", "timeout"}, Regimes: []bool{true}, ChoiceBound: bound}
+		cfg := sm.Cfg{Ctx: c, Depth: depth, Events: []string{"msg:a", "msg:zz", "timeout"}, Regimes: []bool{true}, ChoiceBound: bound}
 		cfg.Visit = func(t *sm.Trans) bool {
 			if t.HarnessErr != nil || t.Panic != "" || t.X == nil || t.X.Err != nil {
 				return false
@@ -616,6 +616,12 @@ func init() {
 		Assumptions: []string{"assets reached through wildcards, names or expressions are outside the dependency clause", "the influence test varies 2 fields, 2 globals and 2 static groups"},
 		Run:         run,
 		Replay:      replayFn,
+		Single:      sm.Single,
+		Classify:    sm.SkipHangs,
+		HangLimit:   15 * time.Second,
+		SingleLimit: 30 * time.Second,
+		MaxBadCases: 2,
+		MemLimitKB:  8 << 20,
 		Budget:      map[string]time.Duration{"quick": 5 * time.Minute, "thorough": 25 * time.Minute},
 		Guards: func(r *mc.Result, tier string) []string {
 			var f []string
